@@ -47,8 +47,14 @@ pub const fn budget(double: bool, op: u8, n: usize) -> u32 {
     }
     let extra = if op == OP_PUSH_INC || op == OP_PUSH_DEC { 1 } else { 0 };
     if !double {
-        // sift-up: 1 per level; sift-down: 2 per level
-        3 * l + 1 + extra
+        // sift-up: 1 per level; sift-down: 2 per level; one spare comparison
+        if op == OP_POP_HI || op == OP_POP_HI_IF {
+            // extraction only sifts down
+            2 * l + 1
+        } else {
+            // updates and removal may sift either way (push of a new item only up)
+            3 * l + 1 + extra
+        }
     } else {
         // bubble-up: 1 + ceil(l/2); one trickle-down: 7 per two levels; the operations
         // that may move an element either way re-sift at most two positions;
@@ -118,10 +124,14 @@ pub fn cost<T: Q, const N: usize>(op: u8, tables: Tables) {
         }
         OP_PEEK_HI => {
             let _ = q.peek_hi().map(|(i, _)| i.key);
+            assert!(hook::calls() <= budget(T::DOUBLE, op, nmax), "COST: peek/peek_max within its budget");
+            hook::start_count(hook::CB_CMP);
             let _ = q.peek_hi_mut().map(|(i, _)| i.key);
         }
         OP_PEEK_LO => {
             let _ = q.peek_lo().map(|(i, _)| i.key);
+            assert!(hook::calls() <= budget(T::DOUBLE, op, nmax), "COST: peek_min within its budget");
+            hook::start_count(hook::CB_CMP);
             let _ = q.peek_lo_mut().map(|(i, _)| i.key);
         }
         OP_LOOKUPS => {
